@@ -157,6 +157,7 @@ class TrS:
         self.nloops = 0
         self.declined = []                 # kinds
         self.mode = "fn"                   # "fn" | "try"
+        self.item_assigned = set()         # locals that some statement of the function item-assigns (d[k] = v)
 
     # ------------------------------------------------------------------ helpers
     def fresh(self, base="t"):
@@ -748,6 +749,14 @@ class TrS:
             return "(c <- %s ;;\n   if c then %s\n   else %s)" % (c, tb, te)
         if isinstance(s, ast.Assign) and len(s.targets) == 1:
             tg = s.targets[0]
+            if isinstance(tg, ast.Name) and isinstance(s.value, ast.IfExp) and tg.id in self.item_assigned \
+                    and self.fresh_container(s.value.body) != self.fresh_container(s.value.orelse):
+                # x = A if c else B, one of A / B a container created here: the same as the if statement, so that
+                # what the local owns is known on each path
+                def arm(v):
+                    return [ast.copy_location(ast.Assign(targets=[tg], value=v), s)]
+                return self.stmt(ast.copy_location(ast.If(test=s.value.test, body=arm(s.value.body),
+                                                          orelse=arm(s.value.orelse)), s), nxt, lc)
             if isinstance(tg, ast.Name):
                 b, a = self.val(s.value)
                 return self.seq(b, self.rebind([(tg.id, a)], nxt, owned=self.fresh_container(s.value)))
@@ -1185,6 +1194,8 @@ class Gen:
         params = self.param_names(fname)
         in_rec = fname in self.rec_set
         tr = TrS(self, fname, params, in_rec)
+        tr.item_assigned = {t.value.id for n in ast.walk(node) if isinstance(n, ast.Assign) for t in n.targets
+                            if isinstance(t, ast.Subscript) and isinstance(t.value, ast.Name)}
         body = tr.block(node.body, tr.fall, None)
         sig = " ".join("(%s : pyval)" % c for _, c in params)
         text = "".join(lp + "\n\n" for lp in tr.loops)
@@ -1238,7 +1249,9 @@ def render():
                 text, dec = g.translate(f)
                 g.fn_status[f] = "ok"
                 status[cname] = "ok" + (" (declines at: %s)" % ", ".join(dec) if dec else "")
-                declined += [(f, d) for d in dec]
+                # the continuation-passing translation visits the code after an `if` once per branch: each
+                # (function, kind) is listed once
+                declined += [(f, d) for d in dict.fromkeys(dec) if (f, d) not in declined]
             except Unsupported as e:
                 g.fn_status[f] = "unsupported: %s" % e
         if g.fn_status[f] != "ok":
